@@ -1574,4 +1574,52 @@ example : -2147483648 ≤ (Dy.mk 7 1).trunc ∧ (Dy.mk 7 1).trunc < 2147483648 :
 example : -2147483648 ≤ (-5 : Int) ∧ (-5 : Int) < 2147483648 := by decide
 example : isPod (V.int 3) = true ∨ ∃ s, V.int 3 = .str s := Or.inl rfl
 
+/-! ## container assignment (`x = Array<T>` / `x = Dic<T>`) rebinds the target only (seeded change C04-r4) -/
+
+/-- **container_assign_rebinds_only** — `x = Array<T>{..}` / `x = Dic<T>{..}` on a root variable `x` (as the driver runs it:
+`assignFresh`, i.e. the history `tmp = Var(c); x = tmp; tmp = Var()`), in EVERY state satisfying the invariant — in particular
+when the ARRAY/OBJ `x` held is shared with other roots, stored inside their containers, or reachable from them: every other
+root `j` holds afterwards the value it held and denotes the tree it denoted before.  The assignment rebinds `x`; it never
+rewrites the container `x` shared. -/
+theorem container_assign_rebinds_only (σ : State) (inv : Inv σ []) (tmp x j : Nat) (ctor : Op)
+    (hctor : (∃ lits, ctor = .ctorArr tmp lits) ∨ (∃ pairs, ctor = .ctorDic tmp pairs)) (hjx : j ≠ x) (hjt : j ≠ tmp) :
+    slotV (assignFresh true σ tmp ⟨x, []⟩ ctor).1 j = slotV σ j ∧
+    ∀ f tr, content f σ.heap (slotV σ j) = some tr →
+      content f (assignFresh true σ tmp ⟨x, []⟩ ctor).1.heap (slotV (assignFresh true σ tmp ⟨x, []⟩ ctor).1 j) = some tr := by
+  simp only [assignFresh]
+  have k1 : KeepsRoot j σ (applyOp true σ ctor).1 := by
+    rcases hctor with ⟨lits, rfl⟩ | ⟨pairs, rfl⟩
+    · exact applyOp_ctorArr_keeps inv tmp j lits hjt
+    · exact applyOp_ctorDic_keeps inv tmp j pairs hjt
+  obtain ⟨inv1, _, _⟩ := inv.applyOp ctor
+  obtain ⟨s1, c1⟩ := k1.content inv1
+  have k2 := applyOp_setV_roots_keeps inv1 x tmp j hjx
+  obtain ⟨inv2, _, _⟩ := inv1.applyOp (.setV ⟨x, []⟩ ⟨tmp, []⟩)
+  obtain ⟨s2, c2⟩ := k2.content inv2
+  have k3 := applyOp_drop_keeps inv2 tmp j hjt
+  obtain ⟨inv3, _, _⟩ := inv2.applyOp (.drop tmp)
+  obtain ⟨s3, c3⟩ := k3.content inv3
+  refine ⟨by rw [s3, s2, s1], fun f tr hc => ?_⟩
+  exact c3 f tr (c2 f tr (c1 f tr hc))
+
+/-- over histories: in every reached state -/
+theorem container_assign_rebinds_only_history (n : Nat) (ops : List Op) (tmp x j : Nat) (ctor : Op)
+    (hctor : (∃ lits, ctor = .ctorArr tmp lits) ∨ (∃ pairs, ctor = .ctorDic tmp pairs)) (hjx : j ≠ x) (hjt : j ≠ tmp) (f : Nat) (tr : Tree)
+    (hc : content f (run true (initState n) ops).heap (slotV (run true (initState n) ops) j) = some tr) :
+    content f (assignFresh true (run true (initState n) ops) tmp ⟨x, []⟩ ctor).1.heap
+      (slotV (assignFresh true (run true (initState n) ops) tmp ⟨x, []⟩ ctor).1 j) = some tr :=
+  (container_assign_rebinds_only _ (history_safe n ops).1 tmp x j ctor hctor hjx hjt).2 f tr hc
+
+/-- not vacuous: `a = [1,2,3]; keep = a` (shared block, rc 2); `a = Array<int>{7,8}`: `a` denotes `[7,8]`, `keep` still `[1,2,3]` -/
+example :
+    content 3 (assignFresh true (run true (initState 3) [.ctorArr 0 [.int 1, .int 2, .int 3], .copy 1 ⟨0, []⟩]) 2 ⟨0, []⟩ (.ctorArr 2 [.int 7, .int 8])).1.heap
+      (slotV (assignFresh true (run true (initState 3) [.ctorArr 0 [.int 1, .int 2, .int 3], .copy 1 ⟨0, []⟩]) 2 ⟨0, []⟩ (.ctorArr 2 [.int 7, .int 8])).1 1) =
+      some (Tree.arr [Tree.num (Dy.ofInt 1), Tree.num (Dy.ofInt 2), Tree.num (Dy.ofInt 3)]) ∧
+    content 3 (assignFresh true (run true (initState 3) [.ctorArr 0 [.int 1, .int 2, .int 3], .copy 1 ⟨0, []⟩]) 2 ⟨0, []⟩ (.ctorArr 2 [.int 7, .int 8])).1.heap
+      (slotV (assignFresh true (run true (initState 3) [.ctorArr 0 [.int 1, .int 2, .int 3], .copy 1 ⟨0, []⟩]) 2 ⟨0, []⟩ (.ctorArr 2 [.int 7, .int 8])).1 0) =
+      some (Tree.arr [Tree.num (Dy.ofInt 7), Tree.num (Dy.ofInt 8)]) ∧
+    slotV (run true (initState 3) [.ctorArr 0 [.int 1, .int 2, .int 3], .copy 1 ⟨0, []⟩]) 0 =
+      slotV (run true (initState 3) [.ctorArr 0 [.int 1, .int 2, .int 3], .copy 1 ⟨0, []⟩]) 1 :=
+  ⟨container_assign_rebinds_only_history 3 _ 2 0 1 _ (Or.inl ⟨_, rfl⟩) (by decide) (by decide) 3 _ (by rfl), by rfl, by rfl⟩
+
 end C04
